@@ -502,6 +502,142 @@ theorem inv_load (ds : List Doc) : Inv (load ds) := by
       | model d => exact ih _ (inv_add h d)
   exact inv_step (this init inv_init) .deploy
 
+/-! ## loading a directory: the order in which the files are read
+
+`WalkDir::new(dir).into_iter()` (`workspace.rs:180`) is not sorted: the files arrive in the order the file system
+lists them.  The model's input is the list of files in the order read; the statements below quantify over its
+permutations. -/
+
+/-- the files that are models, in the order read -/
+def Doc.models : List Doc → List Def
+  | [] => []
+  | .unreadable :: ds => Doc.models ds
+  | .model d :: ds => d :: Doc.models ds
+
+/-- no two model files share a namespace or a name -/
+def DistinctKeys (ds : List Doc) : Prop :=
+  (Doc.models ds).Pairwise (fun a b => a.ns ≠ b.ns ∧ a.name ≠ b.name)
+
+theorem models_perm {ds ds' : List Doc} (h : ds.Perm ds') : (Doc.models ds).Perm (Doc.models ds') := by
+  induction h with
+  | nil => exact .nil
+  | cons x _ ih => cases x with
+    | unreadable => exact ih
+    | model d => exact .cons d ih
+  | swap x y l =>
+    cases x <;> cases y <;> simp only [Doc.models]
+    · exact .refl _
+    · exact .refl _
+    · exact .refl _
+    · exact .swap _ _ _
+  | trans _ _ ih1 ih2 => exact ih1.trans ih2
+
+theorem defs_foldl_loadStep (ds : List Doc) {s : State} (hs : Inv s)
+    (hfresh : ∀ e ∈ s.defs, ∀ d ∈ Doc.models ds, e.ns ≠ d.ns ∧ e.name ≠ d.name)
+    (hd : DistinctKeys ds) : (ds.foldl loadStep s).defs = s.defs ++ Doc.models ds := by
+  induction ds generalizing s with
+  | nil => simp [Doc.models]
+  | cons x ds ih =>
+    cases x with
+    | unreadable => exact ih hs hfresh hd
+    | model d =>
+      simp only [DistinctKeys, Doc.models, List.pairwise_cons] at hd
+      have hok : (add s d).2 = .ok := (add_iff_fresh hs d).mpr (fun e he => hfresh e he d (by simp [Doc.models]))
+      have hdefs : (add s d).1.defs = s.defs ++ [d] := by
+        by_cases h1 : s.byNs.contains d.ns = true
+        · rw [add_ns h1] at hok; cases hok
+        · by_cases h2 : s.byName.contains d.name = true
+          · rw [add_name h1 h2] at hok; cases hok
+          · rw [add_fresh h1 h2]
+      simp only [List.foldl_cons, loadStep, Doc.models]
+      rw [ih (inv_add hs d) ?_ hd.2, hdefs]
+      · simp
+      · intro e he d' hd'
+        rw [hdefs] at he
+        rcases List.mem_append.mp he with he | he
+        · exact hfresh e he d' (by simp [Doc.models, hd'])
+        · simp only [List.mem_singleton] at he
+          subst he
+          exact hd.1 d' hd'
+
+/-- With pairwise distinct namespaces and names every model file is stored, in the order read. -/
+theorem load_stores_all (ds : List Doc) (hd : DistinctKeys ds) : (load ds).defs = Doc.models ds := by
+  have := defs_foldl_loadStep ds inv_init (by intro e he; cases he) hd
+  simpa [load, deploy, init] using this
+
+theorem distinctKeys_perm {ds ds' : List Doc} (h : ds.Perm ds') (hd : DistinctKeys ds) : DistinctKeys ds' := by
+  unfold DistinctKeys at hd ⊢
+  exact ((models_perm h).pairwise_iff (fun {a b} hab => ⟨fun e => hab.1 e.symm, fun e => hab.2 e.symm⟩)).mp hd
+
+/-- Loading does not depend on the order in which the files of the directory are read, when no two model files share a
+namespace or a name: for every permutation of the files the stored list is a permutation of the stored list (the same
+set of definitions: every model file), and exactly the same models can be evaluated — those that build — whatever
+stands next to them (files that are no models, models that fail to build). -/
+theorem load_order_independent (ds ds' : List Doc) (hp : ds.Perm ds') (hd : DistinctKeys ds) :
+    (load ds).defs.Perm (load ds').defs ∧
+    (∀ d, d ∈ (load ds).defs ↔ d ∈ (load ds').defs) ∧
+    (∀ m, canEvaluate (load ds) m = canEvaluate (load ds') m) ∧
+    (∀ m, canEvaluate (load ds) m = true ↔ ∃ d, Doc.model d ∈ ds ∧ d.builds = true ∧ d.name = m) := by
+  have hd' := distinctKeys_perm hp hd
+  have hperm : (load ds).defs.Perm (load ds').defs := by
+    rw [load_stores_all ds hd, load_stores_all ds' hd']; exact models_perm hp
+  have hmem : ∀ (l : List Doc) (d : Def), d ∈ Doc.models l ↔ Doc.model d ∈ l := by
+    intro l d
+    induction l with
+    | nil => simp [Doc.models]
+    | cons x l ih =>
+      cases x with
+      | unreadable => simp [Doc.models, ih]
+      | model e => simp [Doc.models, ih]
+  have hev : ∀ (l : List Doc), DistinctKeys l → ∀ m,
+      (canEvaluate (load l) m = true ↔ ∃ d, Doc.model d ∈ l ∧ d.builds = true ∧ d.name = m) := by
+    intro l hl m
+    have hdefs : (l.foldl loadStep init).defs = Doc.models l := by
+      have := load_stores_all l hl; simpa [load, deploy] using this
+    rw [load, deploy_skips_failures, hdefs]
+    constructor
+    · rintro ⟨d, hdm, hb, hn⟩; exact ⟨d, (hmem l d).mp hdm, hb, hn⟩
+    · rintro ⟨d, hdm, hb, hn⟩; exact ⟨d, (hmem l d).mpr hdm, hb, hn⟩
+  refine ⟨hperm, fun d => hperm.mem_iff, ?_, hev ds hd⟩
+  intro m
+  rw [Bool.eq_iff_iff, hev ds hd m, hev ds' hd' m]
+  constructor
+  · rintro ⟨d, hdm, h⟩; exact ⟨d, hp.mem_iff.mp hdm, h⟩
+  · rintro ⟨d, hdm, h⟩; exact ⟨d, hp.mem_iff.mpr hdm, h⟩
+
+/-- non-vacuity: two models, a file that is no model, a model that does not build -/
+example : DistinctKeys [.model ⟨"ns1", "n1", true⟩, .unreadable, .model ⟨"ns2", "n2", false⟩, .model ⟨"ns3", "n3", true⟩] := by
+  simp [DistinctKeys, Doc.models]
+
+/-- When two model files clash — the later one has the namespace or the name of a model already stored — the one read
+first stays and the later one is dropped (its `add` error is printed and loading goes on, `workspace.rs:191-194`):
+the state after the file is the state before it. -/
+theorem load_clash_first_wins {s : State} (hs : Inv s) (d e : Def) (he : e ∈ s.defs)
+    (hclash : e.ns = d.ns ∨ e.name = d.name) (post : List Doc) :
+    loadStep s (.model d) = s ∧ e ∈ (post.foldl loadStep (loadStep s (.model d))).defs := by
+  have hne : (add s d).2 ≠ .ok := by
+    intro hok
+    have := (add_iff_fresh hs d).mp hok e he
+    rcases hclash with h | h
+    · exact this.1 h
+    · exact this.2 h
+  have hst : loadStep s (.model d) = s := failed_add_changes_nothing s d hne
+  exact ⟨hst, by rw [hst]; exact mem_defs_foldl_loadStep post he⟩
+
+/-- non-vacuity -/
+example : Inv (add init ⟨"ns", "a", true⟩).1 ∧ (⟨"ns", "a", true⟩ : Def) ∈ (add init ⟨"ns", "a", true⟩).1.defs :=
+  ⟨inv_add inv_init _, by decide⟩
+
+/-- So with a clash the outcome depends on the order of the directory: of two model files with one namespace and
+different names — both building — exactly the one read first can be evaluated. -/
+theorem load_order_dependent_on_clash_counterexample :
+    let a : Doc := .model ⟨"ns", "a", true⟩
+    let b : Doc := .model ⟨"ns", "b", true⟩
+    [a, b].Perm [b, a] ∧ ¬ DistinctKeys [a, b] ∧
+    canEvaluate (load [a, b]) "a" = true ∧ canEvaluate (load [a, b]) "b" = false ∧
+    canEvaluate (load [b, a]) "a" = false ∧ canEvaluate (load [b, a]) "b" = true := by
+  refine ⟨.swap _ _ _, by simp [DistinctKeys, Doc.models], by decide, by decide, by decide, by decide⟩
+
 /-! ## non-vacuity: a two-model history that exercises the cross-key removal -/
 
 example :
